@@ -29,6 +29,10 @@ type MsgSpec struct {
 	Partition int32 `json:"partition"`
 	Wave      int   `json:"wave,omitempty"`
 	Pad       int   `json:"pad,omitempty"`
+	// Reuse: the application sends this message by re-using the *ProducerMessage object it got back (on Successes() or
+	// Errors()) for message Reuse, with this message's identity (Metadata), value and destination written into it;
+	// a new object if that message has not come back by then. ProducerMessage.clear is what makes this legitimate.
+	Reuse int64 `json:"reuse,omitempty"`
 }
 
 // Step is one action of the driver goroutine (the application + the steering).
@@ -85,6 +89,7 @@ type Result struct {
 	HaveTxn    bool
 	PID        int64
 	GateHeld   []bool
+	Reused     []int64 // ids submitted in a returned object
 	SetupErr   string
 	Wall       time.Duration
 }
@@ -113,10 +118,15 @@ func (sc *Scenario) Config() *sarama.Config {
 	return cfg
 }
 
-func message(s MsgSpec, run *Result) *sarama.ProducerMessage {
+func message(s MsgSpec, run *Result, old *sarama.ProducerMessage) *sarama.ProducerMessage {
 	val := fmt.Sprintf("%d", s.ID)
 	if s.Pad > 0 {
 		val += ":" + strings.Repeat("p", s.Pad)
+	}
+	if old != nil {
+		// what an application that recycles its message objects does: only the exported fields are touched
+		old.Topic, old.Partition, old.Key, old.Value, old.Metadata = TopicNames[s.Topic], s.Partition, nil, sarama.StringEncoder(val), &meta{id: s.ID, run: run}
+		return old
 	}
 	return &sarama.ProducerMessage{Topic: TopicNames[s.Topic], Partition: s.Partition, Value: sarama.StringEncoder(val), Metadata: &meta{id: s.ID, run: run}}
 }
@@ -155,6 +165,7 @@ func Run(sc *Scenario) *Result {
 
 	var omu sync.Mutex
 	var succ, errs []Outcome
+	returned := map[int64]*sarama.ProducerMessage{}
 	closedS, closedE := make(chan struct{}), make(chan struct{})
 	idOf := func(m *sarama.ProducerMessage) int64 {
 		if mm, ok := m.Metadata.(*meta); ok {
@@ -166,6 +177,7 @@ func Run(sc *Scenario) *Result {
 		for m := range prod.Successes() {
 			omu.Lock()
 			succ = append(succ, Outcome{ID: idOf(m), Success: true, Topic: m.Topic, Partition: m.Partition, Offset: m.Offset})
+			returned[idOf(m)] = m
 			omu.Unlock()
 		}
 		close(closedS)
@@ -174,6 +186,7 @@ func Run(sc *Scenario) *Result {
 		for e := range prod.Errors() {
 			omu.Lock()
 			errs = append(errs, Outcome{ID: idOf(e.Msg), Err: sarama.VerifProdErrClass(e.Err), Topic: e.Msg.Topic, Partition: e.Msg.Partition})
+			returned[idOf(e.Msg)] = e.Msg
 			omu.Unlock()
 		}
 		close(closedE)
@@ -182,8 +195,18 @@ func Run(sc *Scenario) *Result {
 	submit := func(w int) {
 		for _, m := range sc.Msgs {
 			if m.Wave == w {
+				var old *sarama.ProducerMessage
+				if m.Reuse != 0 {
+					omu.Lock()
+					old = returned[m.Reuse]
+					delete(returned, m.Reuse) // an object is in the application's hands once
+					omu.Unlock()
+					if old != nil {
+						res.Reused = append(res.Reused, m.ID)
+					}
+				}
 				select {
-				case prod.Input() <- message(m, res):
+				case prod.Input() <- message(m, res, old):
 				case <-time.After(stepBound):
 				}
 			}
